@@ -431,6 +431,11 @@ def run(tier, seed, t0):
         c09.analyse(e3, "c10_framing_second_flush", [("counter", 0, 1, False, False), ("drain",), ("gauge", 1, 1, True, False), ("drain",)], "two flush cycles on one payload writer (framing for the transport in use)")
     except _e3.ENC_ERRORS as ex:
         e3.error("c10_framing_second_flush", "MIR->SMT encoding of PayloadWriter", ex)
+    # ... and two metrics in one flush where the first may be too long for the payload limit (rejected) and the second is written after it
+    try:
+        c09.analyse(e3, "c10_framing_two_metrics_one_flush", [("counter", 1, 1, True, False), ("gauge", 0, 1, False, False), ("drain",)], "two metrics in one flush, either of which may exceed the payload limit (framing for the transport in use)")
+    except _e3.ENC_ERRORS as ex:
+        e3.error("c10_framing_two_metrics_one_flush", "MIR->SMT encoding of PayloadWriter", ex)
     for n in ([4] if tier == "quick" else [3, 4, 5]):
         try:
             flush_history(e3, n)
